@@ -105,7 +105,8 @@ def col_keys(D, full=True):
     ks += [(repr(i), 'g') for i in ints]
     ks += [(repr(n), 'g') for n in (names if full else names[:1])] + [("'nope'", 'g')]
     # near misses of a real name are unknown names too (matching is exact)
-    near = ["'CH1 '", "' CH1'", "'ch1'", "'CH'", "'CH11'", "''", "'CH1\\t'", "['CH1', 'CH2 ']", "('ch2', 0)"]
+    near = ["'CH1 '", "' CH1'", "'ch1'", "'CH'", "'CH11'", "''", "'CH1\\t'", "['CH1', 'CH2 ']", "('ch2', 0)",
+            "'label1'", "['CH1', 'label%d']" % D, "('label1',)"]            # a channel LABEL ($PnS) is not a channel name
     ks += [(n, 'g') for n in (near if full else near[:3])]
     ks += [(s, 'g') for s in slices(D, full)]
     elems = [repr(n) for n in names] + [repr(i) for i in range(-D, D)]
@@ -133,8 +134,10 @@ def col_keys(D, full=True):
             other.append('np.array(%r)' % (list(m),))
     other += ['np.int64(0)', 'np.int32(%d)' % (D - 1), 'np.array([0])', 'np.array([%d, 0])' % (D - 1), 'None', 'True',
               'np.uint8(0)', '[np.int64(0)]', 'np.array(0)', '[[0]]', '[[0], [%d]]' % (D - 1), '0.0', "b'CH1'"]
+    # selectors that can be iterated only once
+    other += ["iter([0, %d])" % (D - 1), "(c for c in ['CH1', %d])" % (D - 1), "reversed([0, %d])" % (D - 1), "map(int, [%d, 0])" % (D - 1), "iter(['CH1'])", "iter([])"]
     if not full:
-        other = other[:3] + ['np.int64(0)', 'np.array([0])', 'None']
+        other = other[:3] + ['np.int64(0)', 'np.array([0])', 'None', "iter([0, %d])" % (D - 1), "(c for c in ['CH1', %d])" % (D - 1)]
     ks += [(o, 'o') for o in other]
     return ks
 
@@ -283,7 +286,7 @@ def build(shape, hist):
     m = root_model(d)
     for k in hist:
         key = ev(k)
-        st = ref_index(m.vals, m.orig, key, m.names)
+        st = ref_index(m.vals, m.orig, refkey(k), m.names)
         d = d[key]
         src = sorted(set(np.asarray(st[2]).ravel().tolist())) if np.asarray(st[2]).size else []
         # names of the current columns (2-D states only are expanded)
@@ -295,12 +298,31 @@ def build(shape, hist):
     return d, m
 
 
+def materialize(k):
+    if isinstance(k, tuple):
+        return tuple(materialize(x) for x in k)
+    if hasattr(k, '__next__') or isinstance(k, (map, reversed)):
+        return list(k)
+    return k
+
+
+def is_lazy(kexpr):
+    return any(t in kexpr for t in ('iter(', 'reversed(', 'map(', ' for '))
+
+
+def refkey(kexpr):
+    """the key as the reference reads it: a selector that can be iterated only once is read as the list of its items"""
+    return materialize(ev(kexpr)) if is_lazy(kexpr) else ev(kexpr)
+
+
 def judge(res, shape, hist, kexpr, kcls, d, m, one):
     """apply key to implementation state d and to the model m; record violations; return successor or None"""
     import FlowCal
     D0 = shape[1]
     key = ev(kexpr)
-    st = ref_index(m.vals, m.orig, key, m.names)
+    lazy = is_lazy(kexpr)
+    # a selector that can be iterated only once is spelled anew for the reference, which reads it as the list of its items
+    st = ref_index(m.vals, m.orig, refkey(kexpr) if lazy else key, m.names)
     try:
         with warnings.catch_warnings():
             warnings.simplefilter('ignore')
@@ -308,7 +330,7 @@ def judge(res, shape, hist, kexpr, kcls, d, m, one):
         raised = None
     except Exception as e:
         raised = e
-    if repr(key) != repr(ev(kexpr)):
+    if not lazy and repr(key) != repr(ev(kexpr)):
         # the key is the caller's object (a list of names may be reused on another sample)
         res.violation('key-changed:%s' % key_form(kexpr), 'indexing sample%s%s with %s changed the key object itself to %r' % (
             shape, ''.join('[%s]' % h for h in hist), kexpr, key), one)
@@ -499,7 +521,7 @@ def run_case(c):
             r = judge(res, shape, list(hist), kexpr, kcls, d, m, one)
             if r is None:
                 return None
-            st = ref_index(m.vals, m.orig, ev(kexpr), m.names)
+            st = ref_index(m.vals, m.orig, refkey(kexpr), m.names)
             orig = np.asarray(st[2])
             names = ['CH%d' % (x + 1) for x in (orig[0].tolist() if orig.ndim == 2 and orig.shape[0] else [])]
             return r, Model(np.asarray(st[1]), orig, names)
